@@ -826,6 +826,11 @@ func (interp *Interpreter) cfg(root *node, sc *scope, importPath, pkgName string
 						// Skip optimization, as it does not work when assigning to a struct field or a dereferenced pointer.
 						break
 					}
+					if n.kind != defineStmt && src.typ.cat == structT && !isInterface(dest.typ) {
+						// Skip optimization for a plain assignment: a struct literal replaces the frame slot,
+						// which would detach the pointers already taken on the existing variable.
+						break
+					}
 					n.gen = nop
 					src.findex = dest.findex
 					src.level = level
